@@ -84,7 +84,7 @@ func c01Run(s *Shard) {
 			}
 			vals := make([]float64, n)
 			for i, k := range idx {
-				vals[i] = float64(k)
+				vals[i] = []float64{0, 0.7 + 1.4, 2.0 / 3}[k] // decimal utilities just below / above their 8-decimal rounding
 			}
 			for _, m := range utilMethods {
 				for _, extra := range []bool{false, true} {
